@@ -328,6 +328,46 @@ pub fn c07(ctx: &Ctx, rep: &mut Report) {
     let t = ctx.tier;
     ctx.prop(rep, "real-peers", t.pick(40_000, 1_500_000), 300, || with_keepalive(c07_real()), run_c07);
     ctx.prop(rep, "raw-rejections", t.pick(20_000, 500_000), 300, || with_keepalive(c07_raw()), run_c07_raw);
+    // an accepting application that is busy while more streams are requested than its accept queue holds (stream_buffer_size):
+    // every request that succeeds must still end up as exactly one accepted stream once the application gets to it
+    ctx.prop(
+        rep,
+        "slow-acceptor",
+        t.pick(6_000, 150_000),
+        100,
+        || {
+            let sh = Shape { max_streams: 1, max_wops: 2, allow_empty: false, allow_drop: false, complete: true, small_windows: true, max_sched: 200 };
+            (opts(true), opts(true), prop::sample::select(vec![1usize, 2, 3, 16]), prop::collection::vec((stream_spec(sh), 0usize..4), 2..=24), any::<bool>(), schedule(200)).prop_map(|(mut o0, mut o1, buf, streams, both, schedule)| {
+                o0.stream_buf = buf;
+                o1.stream_buf = buf;
+                let streams: Vec<StreamSpec> = streams
+                    .into_iter()
+                    .map(|(mut s, k)| {
+                        s.side = if both { k % 2 } else { 0 };
+                        s.delay %= 3;
+                        s
+                    })
+                    .collect();
+                Case {
+                    opts: [o0, o1],
+                    streams,
+                    acceptors: [AcceptPolicy::AfterWake(1), AcceptPolicy::AfterWake(1)],
+                    events: vec![RawEvent { when: Trigger::Quiescent, what: What::Wake(1) }],
+                    schedule,
+                    ..Case::default()
+                }
+            })
+        },
+        |case| {
+            let mut o = run_c07(case);
+            let n = [0, 1].map(|sd| case.streams.iter().filter(|s| s.side == sd).count());
+            if n[0].max(n[1]) > case.opts[0].stream_buf {
+                o.nontrivial = true;
+                o.classes.push("more-requests-than-the-accept-queue-holds");
+            }
+            o
+        },
+    );
     ctx.enumerate(
         rep,
         "initial-credit",
